@@ -9,11 +9,13 @@ from props.devs_common import coq_case, nontrivial, op_kinds, run_impl  # noqa: 
 ID = "C15"
 COQ_PROPERTY_FILE = "Properties/C15.v"
 COQ_DEPS = ["Generated/Tables.v", "Model/Devs.v", "Model/DevsSpec.v", "Proofs/DevsProofs.v", "Proofs/DevsChunkProofs.v", "Proofs/DevsStepProofs.v",
-            "Proofs/DevsTopProofs.v", "Proofs/DevsVizProofs.v", "Proofs/DevsVizTopProofs.v"]
+            "Proofs/DevsTopProofs.v", "Proofs/DevsVizProofs.v", "Proofs/DevsVizTopProofs.v", "Proofs/DevsOrderProofs.v", "Proofs/DevsBridge.v"]
 COQ_IMPORTS = "From Mesa Require Import Generated.Tables Model.Devs."
 COQ_CASE_TYPE = "case"
 COQ_RUN = "run_case"
-TABLE_CONSTRUCTS = ["devs_priority_values", "devs_event_key", "devs_step_priority", "devs_viz_run_for"]
+TABLE_CONSTRUCTS = ["devs_priority_values", "devs_event_key", "devs_step_priority", "devs_viz_run_for",
+                    "devs_skeleton", "devs_rel_code", "devs_abs_code", "devs_now_code", "devs_tick_code", "devs_schedule_event_code", "devs_run_for_code",
+                    "devs_until_code", "devs_until_abm_code", "devs_abm_resched_code", "devs_execute_code", "devs_pop_code", "devs_peek_keeps_code", "devs_peek_full_code"]
 S = D.S
 
 
@@ -121,6 +123,7 @@ RULE = ("histories = one simulator after setup, 0-6 events scheduled up front (w
 TRUSTED_BASE = [
     "Coq 8.16.1 kernel (coqc); vm_compute for finite facts and for evaluating the model in the correspondence",
     "no axioms: Print Assumptions reports 'Closed under the global context' for every C15 theorem",
+    "harness/pyexpr.py + harness/tables/devs_code.py (code-level T1): guards, time arithmetic and loop decisions of the simulators and the event list translated to Gallina; their statement skeletons",
     "harness/tables/devs.py (T1): Priority values, the SimulationEvent.__lt__ tuple, the priority of model.step at every site that schedules it",
     "harness/props/devs_common.py driver+observer+Gallina printer (T2, differential testing, not a proof)",
     "Model/Devs.v is a hand transcription of eventlist.py/simulator.py and of Model._wrapped_step (steps += 1, then user step); "
